@@ -97,4 +97,20 @@ example : ∃ su du, packI32 (-7) = some su ∧ packI32 (-3) = some du ∧ decod
 example : decodeAxis 2147483647 4294967295 3 = [2147483647, 2147483646, 2147483645] := by decide
 example : packI32 2147483648 = none := by decide
 
+/-- line `k` of a regenerated axis carries the label `start + step·k` -/
+theorem axis_entry (start step : Int) (count k : Nat) (hk : k < count) :
+    (axis start step count)[k]? = some (start + step * (k : Int)) := by
+  simp [axis, hk]
+
+/-- with a non-zero increment no two lines of an axis share a label: a read by line number denotes one line -/
+theorem axis_labels_distinct (start step : Int) (count j k : Nat) (hs : step ≠ 0) (hj : j < count) (hk : k < count)
+    (h : (axis start step count)[j]? = (axis start step count)[k]?) : j = k := by
+  rw [axis_entry _ _ _ _ hj, axis_entry _ _ _ _ hk] at h
+  have h1 : step * (j : Int) = step * (k : Int) := by
+    have := Option.some.inj h; omega
+  have := Int.eq_of_mul_eq_mul_left hs h1
+  omega
+
+example : axis 100 (-2) 4 = [100, 98, 96, 94] := by decide
+
 end Sgz.Props.C05
